@@ -20,6 +20,7 @@ import (
 	"path/filepath"
 	"strings"
 	"testing"
+	"time"
 
 	"github.com/ossrs/go-oryx-lib/https/acme"
 	"github.com/ossrs/go-oryx-lib/https/jose"
@@ -216,7 +217,7 @@ type fixedNonce string
 
 func (f fixedNonce) Nonce() (string, error) { return string(f), nil }
 
-func runSign(c SCase) (n cnt, err error) {
+func runSign0(c SCase) (n cnt, err error) {
 	sk, vk, wk, err := sigKeys(c)
 	if err != nil {
 		return n, err
@@ -428,7 +429,23 @@ func encKeys(c ECase) (enc interface{}, dec interface{}, wrong interface{}, err 
 	return nil, nil, nil, fmt.Errorf("alg %q", c.Alg)
 }
 
+// runEncrypt / runSign run one case under a generous deadline: an operation that does not come back does not
+// "decrypt to the original payload" either (a case takes milliseconds; minutes mean it hangs).
 func runEncrypt(c ECase) (n cnt, err error) {
+	if e := ev.WithTimeout(5*time.Minute, func() error { n, err = runEncrypt0(c); return nil }); e != nil {
+		return n, fmt.Errorf("%s/%s zip=%v, %d-byte payload: %v", c.Alg, c.Enc, c.Zip, c.Size, e)
+	}
+	return n, err
+}
+
+func runSign(c SCase) (n cnt, err error) {
+	if e := ev.WithTimeout(5*time.Minute, func() error { n, err = runSign0(c); return nil }); e != nil {
+		return n, fmt.Errorf("%s, %d-byte payload: %v", c.Alg, c.Size, e)
+	}
+	return n, err
+}
+
+func runEncrypt0(c ECase) (n cnt, err error) {
 	ek, dk, wk, err := encKeys(c)
 	if err != nil {
 		return n, err
